@@ -306,6 +306,7 @@ class LexicalParent(HasLabel, Generic[ChildType], ABC):
             pass
         else:
             label = self._get_unique_label(label, strict_naming)
+            child._check_label(label)  # Fail before mutating anything
 
             if self._this_child_is_already_at_a_different_label(child, label):
                 self.children.inv.pop(child)
